@@ -676,6 +676,30 @@ class SymLog10:
         return k
 
 
+def _symlog_trunc(self):
+    # int(log10(x)): truncation towards zero
+    k = self.__floor__()
+    if k >= 0:
+        return k
+    if E.branch(self.z == q_val(Fraction(10) ** k)):
+        return k
+    return k + 1
+
+
+SymLog10.__int__ = _symlog_trunc
+SymLog10.__trunc__ = _symlog_trunc
+
+
+def _symlog_ceil(self):
+    k = self.__floor__()
+    if E.branch(self.z == q_val(Fraction(10) ** k)):
+        return k
+    return k + 1
+
+
+SymLog10.__ceil__ = _symlog_ceil
+
+
 # ----------------------------------------------------------------- patching
 _ARITH = ['__add__', '__radd__', '__sub__', '__rsub__', '__mul__', '__rmul__',
           '__truediv__', '__rtruediv__', '__pow__', '__rpow__',
